@@ -230,7 +230,7 @@ def patterns(n):
 _COMMON = {
     'operations': 7, 'use_pull_operations': [None, True, False], 'server_pull': ['enabled', 'disabled'],
     'MaxObjectCount': '1, 2, n, n+1, not passed, and the invalid 0, None, -1, "1"',
-    'consumption': 'exhaust; close() after k objects, k=0..n; dropped + gc.collect() after k '
+    'consumption': 'iterate to the end; close() after k objects, k=0..n; dropped + gc.collect() after k '
                    'objects, k=0..n; CIM_ERR_FAILED at the j-th Pull..., j=1..n-1, context kept / '
                    'closed by the server',
     'single': 'full product of all of the above x extra parameters, standard target arguments',
@@ -239,10 +239,12 @@ _COMMON = {
                                 'slashes; AssocClass, ResultClass, Role, ResultRole, PropertyList, '
                                 'IncludeClassOrigin, DeepInheritance, LocalOnly) x operations x '
                                 'use_pull_operations x server x n x MaxObjectCount {1, n+1} x '
-                                '{exhaust, close after 1}',
+                                '{all, close after 1}',
     'sequence_alphabet': '7 operations x server {enabled, disabled} x extra {none, filter or '
                          'ReturnQueryResultClass, ContinueOnError} x MaxObjectCount {1, n+1} x '
-                         '{exhaust, close after 1, drop after 1, error at 1st pull (kept)}',
+                         '{all, close after 1, drop after 1, error at 1st pull (context kept)}; '
+                         'BFS over all call sequences up to sequence_length, one BFS per '
+                         '(use_pull_operations, n)',
 }
 BOUNDS = {
     'quick': dict(_COMMON, N=[0, 1, 2, 3], sequence_length=2, sequence_N=[0, 1, 2, 3],
@@ -255,7 +257,8 @@ BOUNDS = {
                                       'FilterQuery {-, given} (query: ReturnQueryResultClass {-, '
                                       'True, False} instead of the filter)'),
 }
-MAX_STATES_PER_BFS = 4000          # safety net for broken implementations (unchanged tree: <= 400)
+MAX_STATES_PER_BFS = 4000          # safety net for implementations that leak contexts (unchanged tree:
+                                   # 113 states after two calls, 435 after three); hitting it is a cap
 
 _CODENAMES = {getattr(pywbem, _n): _n for _n in dir(pywbem) if _n.startswith('CIM_ERR_')}
 
@@ -793,8 +796,20 @@ def judge_later(w, call, out, sig0):
     fr = fresh_outcome(w.n, w.upo, call)
     problems = []
     if fr[0] != 'ok':
-        return problems, 'later:fresh-connection-fails-too' if out['status'] != 'ok' \
-            else 'later:succeeds-where-fresh-fails', True
+        if out['status'] != 'ok':
+            return problems, 'later:fresh-connection-fails-too', True
+        # nothing is demanded by the last clause; the first clause still holds for every call
+        ref = reference(w.n, call)
+        if ref[0] == 'ok':
+            items = [(None, d) for d in summary(op, out)[2]]
+            part = call['use'][0] in ('close', 'drop')
+            G, R = Counter(d for _, d in items), Counter(d for _, d in ref[1])
+            if (part and (G - R)) or (not part and G != R):
+                problems.append(Problem(
+                    dict(sig0, check='sequence', what='later-call-wrong-result'),
+                    'the objects of %s' % OPS[op][1], describe(out)))
+                return problems, 'VIOLATION', True
+        return problems, 'later:succeeds-where-fresh-fails', True
     here = summary(op, out)
     exp = 'as on a fresh connection: %d objects' % len(fr[2])
     if here[0] != 'ok':
